@@ -14,6 +14,15 @@ def _rayon(n):
 
 
 PLAN = {
+    "C14": {
+        "level": "translation_validation",
+        "engines": lambda tier: [_e("script", "indep/c14.py", "c14", also_build=[("release", "corpusmc"), ("release", "codec")])],
+        "assumptions": [
+            "the independent decoder (indep/jbkdecode.py: own CRC-32C, own BLAKE3, own layout tables) follows the bytes the pinned writer produces (DESIGN appendix A); where spec/*.rst differs the bytes win and the difference is listed in the decoder's header",
+            "zstd/lz4 streams are decompressed through the codec crates directly (harness `codec` binary), lzma through the Python stdlib",
+            "the corpus (/verif/corpus, 20 containers) was written by the pinned tree fc3306d; expected dumps come from the independent decoder and agree with the pinned reader wherever that reader returns a value",
+        ],
+    },
     "C09": {
         "level": "fault_enumeration",
         "engines": lambda tier: [_e("release", "crashmc", "c09", also_build=[("shim", "faultfs")])],
